@@ -15,6 +15,9 @@
 //	rega:<n>:<nid>:<addr>  geta:<n>:<nid>                      RegisterNodeAddress / GetNodeAddress ("@0".."@3" = live endpoints)
 //	fwd:<n>:<tid>                                              target arrives on node n: Lookup + TunnelConnectionManager.CreateDedicatedConnection
 //
+//	poll:<n>:<tid>:<k>  pend:<n>:<tid>                         SessionManager.lookupTunnelRouting behind a gated store: first k polls / one more poll, then ctx ends
+//	restart:<n>                                                node n crashes and restarts over the same storage
+//
 // obs: one token per event (ok eparam nf exp eint estore edata exists skip addr:<hex> found:<fields>:<ttl ms>).
 package main
 
@@ -208,6 +211,11 @@ func (keepOpen) Close() error { return nil }
 
 // ---- environment of one case
 
+type oldNode struct {
+	sm *session.SessionManager
+	cs *countStore
+}
+
 type env struct {
 	backend string
 	ctx     context.Context
@@ -220,6 +228,12 @@ type env struct {
 	mgrs    []*session.TunnelConnectionManager
 	ccs     []*fakeCC
 	conns   []net.Conn
+	ttls    []int
+	shared  storage.Storage
+	old     []oldNode // components of crashed nodes: quiesced and closed at the end of the case
+	pollers map[string]*poller
+	attached map[string]bool // bridges (node/tid) that already got their target through the local branch
+	unstable bool // a gated schedule could not be forced exactly: the run must not be judged
 	start   time.Time
 	elapsed time.Duration // model time since start
 }
@@ -245,29 +259,14 @@ func newEnv(backend string, ttls []int) (*env, error) {
 	default:
 		return nil, fmt.Errorf("unknown backend %s", backend)
 	}
-	for i, ttl := range ttls {
-		var st storage.Storage
-		switch backend {
-		case "redis":
-			r, err := e.pool.client(i)
-			if err != nil {
-				return nil, err
-			}
-			st = r
-		case "hybridRedis":
-			r, err := e.pool.client(i)
-			if err != nil {
-				return nil, err
-			}
-			st = storage.NewHybridStorageWithSharedCache(e.ctx, storage.NewMemoryStorage(e.ctx), keepOpen{r}, nil, nil)
-		case "hybridLocal":
-			st = storage.NewHybridStorage(e.ctx, storage.NewMemoryStorage(e.ctx), nil, nil)
-		default:
-			st = shared
+	e.shared, e.ttls = shared, ttls
+	for i := range ttls {
+		cs, err := e.buildStore(i)
+		if err != nil {
+			return nil, err
 		}
-		cs := newCountStore(st)
 		e.stores = append(e.stores, cs)
-		e.tables = append(e.tables, tunnel.NewRoutingTable(cs, time.Duration(ttl)*time.Millisecond))
+		e.tables = append(e.tables, tunnel.NewRoutingTable(cs, time.Duration(ttls[i])*time.Millisecond))
 		e.sms = append(e.sms, nil)
 		e.ccs = append(e.ccs, nil)
 	}
@@ -275,7 +274,72 @@ func newEnv(backend string, ttls []int) (*env, error) {
 	return e, nil
 }
 
+// buildStore: the storage object of node i as a starting process builds it (own Redis client / own
+// tiered store with an empty local cache; the in-memory configurations share one store object).
+func (e *env) buildStore(i int) (*countStore, error) {
+	var st storage.Storage
+	switch e.backend {
+	case "redis":
+		r, err := e.pool.client(i)
+		if err != nil {
+			return nil, err
+		}
+		st = r
+	case "hybridRedis":
+		r, err := e.pool.client(i)
+		if err != nil {
+			return nil, err
+		}
+		st = storage.NewHybridStorageWithSharedCache(e.ctx, storage.NewMemoryStorage(e.ctx), keepOpen{r}, nil, nil)
+	case "hybridLocal":
+		st = storage.NewHybridStorage(e.ctx, storage.NewMemoryStorage(e.ctx), nil, nil)
+	default:
+		st = e.shared
+	}
+	return newCountStore(st), nil
+}
+
+// restart: node n crashes and comes back — new storage object, routing table, session manager and
+// connection manager over the same shared storage; nothing of the old process runs any cleanup now.
+func (e *env) restart(n int) string {
+	for k, p := range e.pollers { // a lookup that was polling in the crashed process dies with it
+		if strings.HasPrefix(k, strconv.Itoa(n)+"/") {
+			p.abort()
+			delete(e.pollers, k)
+		}
+	}
+	for k := range e.attached {
+		if strings.HasPrefix(k, strconv.Itoa(n)+"/") {
+			delete(e.attached, k)
+		}
+	}
+	if e.sms[n] != nil {
+		e.old = append(e.old, oldNode{e.sms[n], e.stores[n]})
+		e.sms[n] = nil
+	}
+	if n < len(e.mgrs) && e.mgrs[n] != nil {
+		e.mgrs[n].Close()
+		e.mgrs[n] = nil
+	}
+	cs, err := e.buildStore(n)
+	if err != nil {
+		return "err:restart"
+	}
+	e.stores[n] = cs
+	e.tables[n] = tunnel.NewRoutingTable(cs, time.Duration(e.ttls[n])*time.Millisecond)
+	return "skip"
+}
+
 func (e *env) close() {
+	for _, p := range e.pollers {
+		p.abort()
+	}
+	for _, o := range e.old {
+		for _, tid := range o.sm.VerifBridgeIDs() {
+			endBridgeOf(o.sm, o.cs, tid)
+		}
+		o.sm.Close()
+	}
 	for _, m := range e.mgrs {
 		if m != nil {
 			m.Close()
@@ -320,9 +384,13 @@ func (e *env) sm(n int) *session.SessionManager {
 // endBridge closes the bridge and waits until runBridgeLifecycle has removed it from the map and
 // has issued the removal of the routing record.
 func (e *env) endBridge(n int, tid string) string {
-	sm := e.sms[n]
+	delete(e.attached, strconv.Itoa(n)+"/"+tid)
+	return endBridgeOf(e.sms[n], e.stores[n], tid)
+}
+
+func endBridgeOf(sm *session.SessionManager, cs *countStore, tid string) string {
 	key := "tunnox:tunnel_waiting:" + tid
-	before := e.stores[n].count(key)
+	before := cs.count(key)
 	sm.VerifCloseBridge(tid)
 	deadline := time.Now().Add(3 * time.Second)
 	for sm.VerifHasBridge(tid) && time.Now().Before(deadline) {
@@ -332,7 +400,7 @@ func (e *env) endBridge(n int, tid string) string {
 		return "err:bridge_not_removed"
 	}
 	if tid != "" {
-		e.stores[n].waitAbove(key, before, 400*time.Millisecond)
+		cs.waitAbove(key, before, 400*time.Millisecond)
 	}
 	return "ok"
 }
@@ -368,6 +436,11 @@ func parseRec(f []string) (rec, error) {
 
 func fmtRec(kind string, n int, r rec) string {
 	return fmt.Sprintf("%s:%d:%s:%s:%s:%s:%d:%d:%s:%d", kind, n, hx(r.tid), hx(r.mp), hx(r.sec), hx(r.src), r.sc, r.tc, hx(r.host), r.port)
+}
+
+func foundTok(st *tunnel.WaitingState) string {
+	return fmt.Sprintf("found:%s:%s:%s:%s:%d:%d:%s:%d:%d", hx(st.TunnelID), hx(st.MappingID), hx(st.SecretKey), hx(st.SourceNodeID),
+		st.SourceClientID, st.TargetClientID, hx(st.TargetHost), st.TargetPort, st.ExpiresAt.Sub(st.CreatedAt).Milliseconds())
 }
 
 func errTok(err error) string {
@@ -424,8 +497,10 @@ func (e *env) exec(tok string) string {
 		if err != nil {
 			return errTok(err)
 		}
-		return fmt.Sprintf("found:%s:%s:%s:%s:%d:%d:%s:%d:%d", hx(st.TunnelID), hx(st.MappingID), hx(st.SecretKey), hx(st.SourceNodeID),
-			st.SourceClientID, st.TargetClientID, hx(st.TargetHost), st.TargetPort, st.ExpiresAt.Sub(st.CreatedAt).Milliseconds())
+		o := foundTok(st)
+		// the caller owns what it got: scribbling over it must not reach the stored record
+		*st = tunnel.WaitingState{TunnelID: "scribbled", MappingID: "scribbled", SourceNodeID: "scribbled", SourceClientID: -1, TargetPort: -1}
+		return o
 	case "rem":
 		n := node()
 		if err := e.tables[n].RemoveWaitingTunnel(ctx, uh(f[2])); err != nil {
@@ -483,6 +558,16 @@ func (e *env) exec(tok string) string {
 		return "addr:" + hx(symAddr(a))
 	case "fwd":
 		return e.forward(node(), uh(f[2]))
+	case "poll":
+		k, err := strconv.Atoi(f[3])
+		if err != nil {
+			panic(err)
+		}
+		return e.pollStart(node(), uh(f[2]), k)
+	case "pend":
+		return e.pollEnd(node(), uh(f[2]))
+	case "restart":
+		return e.restart(node())
 	}
 	panic("unknown event " + tok)
 }
@@ -529,7 +614,7 @@ func runCase(caseStr string) (obs string, ok bool) {
 			out = append(out, e.exec(t))
 			spans = append(spans, span{before, time.Since(e.start)})
 		}
-		ch <- result{strings.Join(out, " "), realConsistent(ttls, toks[2:], spans)}
+		ch <- result{strings.Join(out, " "), realConsistent(ttls, toks[2:], spans) && !e.unstable}
 	}()
 	select {
 	case r := <-ch:
